@@ -38,6 +38,8 @@ var _ merger.TypeURLMap
 //@ returns plan, err
 //@ requires ctx != nil && ctx.Operation != nil && ctx.Schema != nil
 //@ ensures[plan] err == nil ==> plan != nil
+// C07: a plan has at least one root step: the executor starts from the steps of depth 0 (an empty plan used to crash it, B30)
+//@ ensures[steps] err == nil ==> len(plan.RootSteps) > 0 @props C07 C09
 //@ modifies fresh, entries(map[hashKey]*QueryPlan), entries(map[hashKey]time.Time), all(ast.Field.SelectionSet), all(ast.InlineFragment.SelectionSet)
 //@ end
 
@@ -45,7 +47,7 @@ var _ merger.TypeURLMap
 //@ props C14
 //@ returns plan, err
 //@ requires cp != nil && cp.cache != nil && cp.cacheTimers != nil && cp.executor != nil
-//@ requires forallT(k, hashKey, has(cp.cache, k) ==> cp.cache[k] != nil)
+//@ requires forallT(k, hashKey, has(cp.cache, k) ==> cp.cache[k] != nil && len(cp.cache[k].RootSteps) > 0)
 //@ requires ctx != nil && ctx.Operation != nil && ctx.Schema != nil
 // planning rewrites the selection sets of the client's AST in place (sanitizeSelectionSet), so
 // the cache key has to be computed from the operation as it was received
@@ -79,7 +81,9 @@ var _ merger.TypeURLMap
 
 //@ func (SequentialPlanner).Plan
 //@ props C07
+//@ returns plan, err
 //@ requires ctx != nil && ctx.Operation != nil && ctx.Schema != nil
+//@ ensures[steps] err == nil ==> plan != nil && len(plan.RootSteps) > 0
 //@ modifies-assumed fresh, all(ast.Field.SelectionSet), all(ast.InlineFragment.SelectionSet)
 //@ end
 
@@ -87,6 +91,7 @@ var _ merger.TypeURLMap
 //@ props C07 C08
 //@ requires qp != nil && ctx != nil && ctx.Operation != nil && ctx.Schema != nil
 //@ ensures[self] result == qp
+//@ ensures[steps-kept] len(qp.RootSteps) == old(len(qp.RootSteps))
 //@ end
 
 //@ func (*QueryPlanStep).SetComputedValues
